@@ -185,6 +185,29 @@ func c03ValidFile(r *Rand, format string) c03File {
 		strict = true
 	}
 	_ = strict
+	if format == "partition" && r.Chance(0.6) {
+		// partition definitions drawn from the grammar, with bounds and steps around 0, the length and the largest integers
+		l := r.Pick(1, 8, 10, 80)
+		nums := []string{"0", "1", "2", "3", "4", "5", fmt.Sprint(l - 1), fmt.Sprint(l), fmt.Sprint(l + 1), fmt.Sprint(l + 2), "9223372036854775807", "99999999999"}
+		var sb strings.Builder
+		for k := r.Range(1, 3); k > 0; k-- {
+			fmt.Fprintf(&sb, "M%d,p%d=", k, r.Intn(3))
+			for j := r.Range(1, 3); j > 0; j-- {
+				sb.WriteString(nums[r.Intn(len(nums))])
+				if r.Chance(0.8) {
+					sb.WriteString("-" + nums[r.Intn(len(nums))])
+				}
+				if r.Chance(0.5) {
+					sb.WriteString(r.PickS("/", "\\") + nums[r.Intn(len(nums))])
+				}
+				if j > 1 {
+					sb.WriteString(r.PickS(",", ", "))
+				}
+			}
+			sb.WriteString("\n")
+		}
+		return c03File{Format: "partition", Name: "partition-grammar", Content: sb.String(), PartLen: l}
+	}
 	if format == "partition" || r.Chance(0.45) {
 		var cands []c03File
 		for _, f := range c03Corpus() {
